@@ -96,7 +96,7 @@ func c13Gen(r *core.Rng) c13case {
 			}
 		default:
 			v.Kind = "exec"
-			core := core.Pick(r, []string{"hello", "two words", "v1.2.3", "a\tb", "", "x  y", "n-1", "100%%"})
+			core := core.Pick(r, []string{"hello", "two words", "v1.2.3", "a\tb", "", "x  y", "n-1", "100%%", "line one\\nline two", "a\\n\\nb  \\n c"})
 			lead := []string{"", " ", "  ", "\\n", "\\t", " \\n "}[r.Intn(6)]
 			trail := []string{"", " ", "\\n", "\\n\\n", " \\t\\n"}[r.Intn(5)]
 			v.Text = "printf '" + lead + core + trail + "'"
@@ -401,6 +401,9 @@ func c13Judge(c *core.Ctx, k c13case, res *core.ShardResult) (vs []core.Violatio
 			want = nv
 		}
 		got, ok := listed[v.Name]
+		if i := strings.Index(want, "\n"); i >= 0 {
+			want = want[:i] // the listing is read line by line: a value of several lines is compared by its first
+		}
 		if !ok || strings.TrimSpace(got) != strings.TrimSpace(want) {
 			bad("vars-lists-value", "--vars shows %q for %s, want %q (output %q)", got, v.Name, want, core.Trunc(invVars.Stdout, 400))
 			return
